@@ -173,8 +173,8 @@ class Intervals:
             c = o['k']
             if 'int' in c:
                 return (c['int'], c['int'])
-            if 'item' in c:
-                v = self.prog.const_int(c['item'], self.crate)
+            if 'item' in c or 'static' in c:
+                v = self.prog.const_int(c.get('item') or c.get('static'), self.crate)
                 if v is not None:
                     return (v, v)
             return ty_range(c.get('ty', '')) or (ty_range(ty) if ty else None)
@@ -344,10 +344,17 @@ def dominating_facts(fn, b):
                 continue
             cond = fn.operand_tree(t['x'])
             vals = [v for v, tgt in t['ts'] if tgt == s]
+            isbool = t.get('ty') == 'bool'
             if s == t['o'] and not vals:
-                v = ('not',) + tuple(v for v, _ in t['ts'])
+                allv = [v for v, _ in t['ts']]
+                if isbool and allv == [0]:
+                    v = True
+                elif isbool and allv == [1]:
+                    v = False
+                else:
+                    v = ('not',) + tuple(allv)
             elif len(vals) == 1 and s != t['o']:
-                v = vals[0]
+                v = bool(vals[0]) if isbool else vals[0]
             else:
                 continue
             tr = truth_of(v)
